@@ -233,6 +233,42 @@ def make_history(rng, c, seeds):
     return c
 
 
+EDITOR_COMMANDS = ["NEW", 'LOAD "x"', 'MERGE "x"', "DEL 10", "DEL 10-20", "RUN", "RENUM", "BYE", "LIST", 'SAVE "file"']
+
+
+def basic_editor_cases():
+    """BASIC editor commands inside stored programs (65899b95: NEW/LOAD/MERGE/DEL freed the running program while its owner kept the pointers):
+    each command as a numbered program line and as an immediate statement (no line number: executed while the block is compiled), in every block
+    type that owns a program; plus the two inputs the thorough tier found"""
+    C = []
+    sol = "SOLUTION 1\n pH 7\n Na 1\n Cl 1\n"
+
+    def block(kind, lines):
+        body = "\n".join(lines) + "\n"
+        if kind == "RATES":
+            return sol + "RATES\nR1\n -start\n" + body + " -end\nKINETICS 1\n R1\n -formula NaCl 1\n -m0 1\n -steps 10 in 2\nEND\n"
+        if kind == "USER_PUNCH":
+            return sol + "SELECTED_OUTPUT 1\n -reset false\nUSER_PUNCH 1\n -headings a\n" + body + "END\n"
+        if kind == "USER_PRINT":
+            return sol + "USER_PRINT\n" + body + "END\n"
+        return sol + "SELECTED_OUTPUT 1\n -reset false\n -calculate_values cv\nCALCULATE_VALUES\ncv\n -start\n" + body + " -end\nEND\n"
+
+    for kind in ("RATES", "USER_PUNCH", "USER_PRINT", "CALCULATE_VALUES"):
+        last = {"RATES": " 30 SAVE 1e-6 * TIME", "USER_PUNCH": " 30 PUNCH 1", "USER_PRINT": " 30 PRINT 1", "CALCULATE_VALUES": " 30 SAVE 1"}[kind]
+        for cmd in EDITOR_COMMANDS:
+            name = re.sub(r"[^A-Za-z0-9]+", "", cmd)
+            if cmd != "RUN":           # a numbered `RUN` restarts the program from its own line: an endless loop the program asks for (like `20 GOTO 10`)
+              C.append(mk_case("corpus", f"basic-editor-{name}-numbered-{kind}", [("run", block(kind, [" 10 x = 1", " 20 " + cmd, last]).encode())],
+                               sw=[("errstr", 1), ("cur", 1), ("selfile", 1)]))
+            C.append(mk_case("corpus", f"basic-editor-{name}-immediate-{kind}", [("run", block(kind, [" 10 x = 1", " " + cmd, last]).encode())],
+                             sw=[("errstr", 1), ("selstr", 1)]))
+    C.append(mk_case("corpus", "basic-new-huge-line-rates-cvode", [("run", (sol + "RATES\nR1\n -start\n 10 x = 1\n99999999999 NEW\n 30 SAVE 1e-6 * TIME\n -end\n"
+                     "KINETICS 1\n R1\n -formula NaCl 1\n -m0 1\n -steps 1 2 3\n -cvode true\nEND\n").encode())], sw=[("errstr", 1)]))
+    C.append(mk_case("corpus", "basic-new-intmax-line-calculate-values", [("run", (sol + "SELECTED_OUTPUT 1\n -calculate_values cv\nCALCULATE_VALUES\ncv\n -start\n"
+                     "2147483647 NEW\n -end\nEND\n").encode())], sw=[("errstr", 1), ("selstr", 1)]))
+    return C
+
+
 def corpus_cases():
     """fixed cases, always run first: the listed known finding, the defects found while building this check, the gtest-style classics"""
     C = []
@@ -308,6 +344,7 @@ def corpus_cases():
     for tag, text in twins.items():
         C.append(mk_case("corpus", tag + "-files-on", [("run", text.encode())], sw=filesw))
         C.append(mk_case("corpus", tag + "-strings", [("run", text.encode())], sw=[("errstr", 1), ("outstr", 1), ("selstr", 1)]))
+    C.extend(basic_editor_cases())
     C.append(mk_case("corpus", "kinetics-constant-rate", [("run", HANG_INPUT)], sw=[("errstr", 1)], timeout=5))
     C.append(mk_case("corpus", "load-missing-after-warning", [("loaddb", b"/nonexistent_dir_c08/x.dat")], sw=[("errstr", 1)], pre=[("run", WARN_PRE)]))
     C.append(mk_case("corpus", "load-missing-fresh", [("loaddb", b"/nonexistent_dir_c08/x.dat")], sw=[("errstr", 1)]))
